@@ -32,7 +32,7 @@ fn strip_faults(t: &Trace) -> Trace {
     let mut events = vec![];
     for e in &t.events {
         match e {
-            Event::ArmTraceFault { .. } => {}
+            Event::ArmTraceFault { .. } | Event::ArmDropFault { .. } => {}
             Event::Mutate { a, cb, ops } => {
                 let cb = if *cb == CbKind::TryMapRootErr { CbKind::TryMapRoot } else { *cb };
                 events.push(Event::Mutate { a: *a, cb, ops: ops.iter().filter(|o| !matches!(o, Op::Panic)).cloned().collect() })
@@ -81,7 +81,7 @@ fn project(t: &Trace, a: Aid) -> Trace {
                 }
                 k
             }
-            Event::ArmTraceFault { .. } => true,
+            Event::ArmTraceFault { .. } | Event::ArmDropFault { .. } => true,
         };
         if keep {
             events.push(e.clone());
